@@ -207,8 +207,18 @@ class ArffLineReader(Filter[str, Sequence[str]]):
 
         return self.filter(line)
 
+    _r_sparse = re.compile(r'''(-?\d+)\s+('(?:[^'\\]|\\.)*'|"(?:[^"\\]|\\.)*"|[^,\s]+)''')
+
     def _sparse(self, line:str) -> Mapping[int,str]:
-        keys_and_vals = re.split('\s*,\s*|\s+', line.strip("} {"))
+        if "'" not in line and '"' not in line:
+            keys_and_vals = re.split('\s*,\s*|\s+', line.strip("} {"))
+        else:
+            #quoted values may hold blanks, commas and braces and have to be unquoted
+            keys_and_vals = []
+            for k,v in self._r_sparse.findall(line.strip()[1:-1]):
+                if v[0] in self._quotes: v = re.sub(r"\\(.)", r"\1", v[1:-1])
+                keys_and_vals.extend([k,v])
+            keys_and_vals = keys_and_vals or ['']
 
         if keys_and_vals != ['']:
             keys = list(map(int,keys_and_vals[0::2]))
